@@ -49,7 +49,8 @@ def _stable(snap):
 
 def configs(tier):
     # (N, mode, req) -> B
-    q = [(2, "batchsize", 2), (4, "batchsize", 2), (3, "num_batches", 2),
+    q = [(2, "batchsize", 2), (2, "num_batches", 3), (4, "batchsize", 2),
+         (3, "num_batches", 2),
          (5, "num_batches", 3), (6, "batchsize", 2), (7, "num_batches", 4),
          (4, "batchsize", 1), (5, "batchsize", 2)]
     # two- and three-digit batch ids: a sparser alphabet, bounded depth
@@ -269,7 +270,10 @@ class World:
         elif kind in ("fgrow", "fcgrow", "fgrow_missing"):
             j = ev[1]
             bad_setting = self.batches[j][-1]
-            with xfn.FailSet([bad_setting]), xfn.CallLog():
+            # (the function fails with an ordinary error or, alternately,
+            # with StopIteration - which generators and map() treat specially)
+            exc = "StopIteration" if (j + len(finished)) % 2 else None
+            with xfn.FailSet([bad_setting], exc=exc), xfn.CallLog():
                 try:
                     if kind == "fgrow":
                         grow(j, crop=self.live, verbosity=0)
